@@ -65,4 +65,12 @@ theorem C04_src_fromUsart_total (enc : List UInt8) :
   rw [Ross.src_fromUsart_eq]
   exact ⟨Ross.fromUsart_no_panic enc, fun f h => Ross.fromUsart_wf enc f h⟩
 
+/-- **C04 about the CAN frame decoder as it reads now.** `Src.fromCan` is `Frame::from_bxcan_frame` translated statement by
+statement from `src/frame.rs` on every run over the model's view of a `bxcan::Frame`. On every frame constructible through
+the driver API it does not panic, and every frame it returns is well-formed. -/
+theorem C04_src_fromCan_total (c : CanFrame) (hc : c.Constructible) :
+    Src.fromCan c ≠ .panic ∧ ∀ f, Src.fromCan c = .ok f → f.WF := by
+  rw [Ross.src_fromCan_eq]
+  exact ⟨Ross.fromCan_no_panic c hc, fun f h => Ross.fromCan_wf c hc f h⟩
+
 end Ross.Props
